@@ -18,6 +18,7 @@ fn main() {
         Some("calls") => calls::main(&args[1..]),
         Some("replay-paths") => edges::replay_paths(&args[1..]),
         Some("guards") => edges::guards(&args[1..]),
+        Some("globals") => edges::globals(&args[1..]),
         Some("edge-one") => edges::edge_one(&args[1..]),
         Some("reuse") => history::reuse(&args[1..]),
         Some("determinism") => history::determinism(&args[1..]),
